@@ -162,7 +162,10 @@ class Effect(object):
         return e
 
     def base(self):
-        return ("effect", self.op, self.path, id(self.node))
+        # one antichain per write site *and* per call of the current frame through which it
+        # is reached: a second, conditional call of the same writer is an effect of its own
+        return ("effect", self.op, self.path, id(self.node),
+                id(self.stack[0][1]) if self.stack else 0)
 
     def __init__(self, op, path, value, func, node, stack, via, origin=None):
         self.guards = frozenset()
